@@ -368,11 +368,16 @@ Definition ipc_get (c : cfg) : list line :=
 
 (* ---------- histories ---------- *)
 
-Inductive op := OSet (ls : list line) | OUp | ODown.
+(* OGetFail: IpcGetOperation on a writer that fails (errno EIO); OHangup: a
+   get=1 over IpcHandle whose client closes without reading (no status can be
+   observed).  Neither touches the configuration. *)
+Inductive op := OSet (ls : list line) | OUp | ODown | OGetFail | OHangup.
 
 Definition step (e : env) (c : cfg) (o : op) : cfg * Z :=
   match o with
   | OSet ls => ipc_set e c ls
   | OUp => dev_up e c
   | ODown => dev_down c
+  | OGetFail => (c, EIO)
+  | OHangup => (c, 0%Z)
   end.
